@@ -1,7 +1,7 @@
 """Which units / lemmas / Kani harnesses decide which property."""
 import importlib
 
-UNIT_MODULES = ['cbc', 'pcbc', 'ige', 'cfb', 'cfb8', 'ofb', 'belt', 'ctr', 'lemmas', 'cts']
+UNIT_MODULES = ['cbc', 'pcbc', 'ige', 'cfb', 'cfb8', 'ofb', 'belt', 'ctr', 'lemmas', 'cts', 'deps']
 
 
 def load_units(names=None):
@@ -14,18 +14,18 @@ def load_units(names=None):
 
 # property -> units whose obligations (clauses tagged with the property) decide it
 PROP_UNITS = {
-    'C01': ['lemmas', 'cbc', 'pcbc', 'ige', 'cfb', 'cfb8', 'ofb', 'ctr', 'belt', 'cts'],
-    'C02': ['cbc', 'pcbc', 'ige'],
-    'C03': ['cfb', 'cfb8', 'ofb'],
+    'C01': ['deps', 'lemmas', 'cbc', 'pcbc', 'ige', 'cfb', 'cfb8', 'ofb', 'ctr', 'belt', 'cts'],
+    'C02': ['deps', 'cbc', 'pcbc', 'ige'],
+    'C03': ['deps', 'cfb', 'cfb8', 'ofb'],
     'C04': ['ctr'],
     'C05': ['cts'],
     'C06': ['belt'],
-    'C07': ['lemmas', 'cbc', 'pcbc', 'ige', 'cfb', 'cfb8', 'ofb', 'ctr', 'belt'],
+    'C07': ['deps', 'lemmas', 'cbc', 'pcbc', 'ige', 'cfb', 'cfb8', 'ofb', 'ctr', 'belt'],
     'C08': ['lemmas', 'cfb', 'cfb8', 'ofb', 'ctr', 'belt'],
     'C09': ['lemmas', 'cbc', 'pcbc', 'ige', 'cfb', 'cfb8', 'ofb', 'ctr', 'belt'],
     'C10': ['ctr', 'belt'],
     'C11': ['ctr', 'belt'],
-    'C12': ['cbc', 'pcbc', 'ige', 'cfb', 'cfb8', 'ofb', 'ctr', 'belt', 'cts'],
+    'C12': ['deps', 'cbc', 'pcbc', 'ige', 'cfb', 'cfb8', 'ofb', 'ctr', 'belt', 'cts'],
     'C13': ['cts', 'cbc', 'pcbc', 'ige', 'cfb', 'cfb8', 'ofb', 'ctr', 'belt'],
     'C14': ['lemmas', 'cts', 'ofb', 'cfb', 'ctr', 'belt', 'cbc'],
     'C16': ['ctr', 'cbc', 'pcbc', 'ige', 'cfb', 'cfb8', 'ofb', 'belt', 'cts'],
@@ -76,11 +76,14 @@ LEVEL = {
                'Verus contracts state each direction against NIST separately.'),
     'C06': _lv('BeltCtrCore init (s = le128(E(IV))), gen_ks_block (pre-increment mod 2^128, E(le128(s))), the parallel body, seek and '
                'remaining are verified by Verus for all E, IVs, positions and widths, including wrap of s across 2^128.'),
-    'C07': _lv('The transducer contract is stated once on the shim traits; every single-block and parallel backend method meets it '
-               '(Verus), run_concat / ks_run_concat give every partition, the dependency\'s default decrypt_par_blocks loop is verified against '
-               'the same contract, and the repo-side chunking of the cts helpers is verified as code.',
-               'cipher::block::ctx (BlocksCtx: who calls what in which order) is assumed; exercised by the block-mode harnesses with widths 2, 3 '
-               'and batch sizes with tails (bounded).'),
+    'C07': _lv('The transducer contract is stated once on the block-mode traits EXTRACTED FROM THE PINNED cipher CRATE; every single-block and '
+               'parallel backend method of /repo meets it (Verus); the dependency\'s own drivers -- BlocksCtx::call (chunks of the parallel '
+               'width, then the tail), BlockCtx::call, the default *_par_blocks / *_tail_blocks / *_inplace methods and the default '
+               'encrypt/decrypt_block(s)(_inout|_b2b) methods of BlockModeEncrypt/Decrypt -- are verified against run(step) as well, so '
+               '"any mixture of single and multi-block calls, any width" is a theorem down from the public block API; run_concat / '
+               'ks_run_concat give every partition; the repo-side chunking of the cts helpers is verified as code.',
+               'Still assumed: *_blocks_b2b (closure capturing &mut self), the stream-core drivers (cipher::stream::core_api, wrapper) and '
+               'the cipher itself; exercised by the harnesses (bounded).'),
     'C08': _lv('Byte-splitting follows from run_concat / ks_run_concat / lemma_cfb_buf_concat (proved, any cut incl. empty pieces) over the '
                'code = spec contracts; prefix preservation is lemma_run_prefix.',
                'The byte-buffering of StreamCipherCoreWrapper and the buffered-CFB data functions are dependency / external_body code: '
